@@ -1,5 +1,6 @@
 import BV.Lemmas.StreamTiny2
 import BV.Lemmas.StreamRunTile
+import BV.Lemmas.StreamStore2
 /-
 C01 — Streaming compression round-trips for every input, setting and call history.
 
@@ -153,6 +154,167 @@ theorem tiny_buf_never_overflows {s : St} (hT : TinyOK s) (hl : s.lastBytesBits 
     ∧ ¬ ((bitsOf s.lastBytesBits s.lastBytes).length + 6) / 8 + 8 > 16 :=
   ⟨fun hlb => pad_tiny_safe hT hl hlb, fun off io hno => push_tiny_safe (io := io) hT hno,
    fun off hno => take_tiny_safe hT hno, md_header_tiny_safe hl⟩
+
+/-! ### no panic on `storage_` -/
+
+/-- **storage_invariant**: `StoreOK` — whenever the output cursor points into `storage_`, the
+pending bytes fit behind it, with two spare bytes as long as a padding block can still be appended
+behind them, and the carry is below 8 bits — is preserved by EVERY call (accepted or refused),
+whatever the oracle answers, and by `take_output`; it holds of a fresh encoder. -/
+theorem storage_invariant {o : Oracle} {fuel op cap : Nat} {input : Bytes} {s s' : St} {io' : Io} {r : Bool}
+    (hop : op ≤ 3) (hR : IsFresh s ∨ Inv s) (hw : s.inputPos + input.length < two64) (hS : StoreOK s)
+    (h : compressStream o fuel s op input cap = .ok (s', io', r)) : StoreOK s' :=
+  storeOK_call hop hR hw hS h
+
+theorem storage_invariant_initial {s : St} (h : IsFresh s) : StoreOK s := storeOK_fresh h
+
+theorem storage_invariant_take {s s' : St} {size : Nat} {out : Bytes} (hS : StoreOK s)
+    (h : takeOutput s size = .ok (s', out)) : StoreOK s' := storeOK_take hS h
+
+/-- **storage_never_overflows** (1), the sites that index `storage_` behind the cursor: under `StoreOK`
+the padding block appended behind pending output, every push and `take_output` stay inside -/
+theorem storage_never_overflows {s : St} (hS : StoreOK s) {off : Nat} (hno : s.nextOut = .dyn off) :
+    (s.lastBytesBits ≠ 0 → s.pending.length ≠ 0 → off + s.pending.length + (s.lastBytesBits + 6 + 7) / 8 ≤ s.storageSize)
+    ∧ (∀ avail, off + min s.pending.length avail ≤ s.storageSize)
+    ∧ takeSliceOk s = true := storage_sites_safe hS hno
+
+/-- **storage_never_overflows** (2), `encode_data`: `get_brotli_storage(2 * span + 527)` is enough for
+every answer within the `OracleOK` size bound (`≤ 8 * (2 * span + 500)` bits over a span of `span`
+bytes), behind a carry of at most 14 bits, the magic-number block and the stored prelude: the only
+way `encode_data` can panic is the catable-prelude assertion (`last_processed_pos_ < 2`). -/
+theorem encode_data_storage_suffices {o : Oracle} {s : St} {site : Nat} {il ff : Bool} (hO : OracleOK o) (hsite : site ≠ 2)
+    (hI : Inv s) (hl : s.lastBytesBits ≤ 14) (hsmall : s.inputPos < 4611686018427387904)
+    (h : encodeData o s site il ff = .panic) :
+    encPre3 (encMagic (encEntry s il) s.carry) (s.unprocessed % two32) = .panic :=
+  encodeData_panic_only_prelude hO hsite hI hl hsmall h
+
+/-- **storage_never_overflows** (3), the one-shot path: a block is written in place only when the
+caller's buffer has `2 * block + 503` bytes, else staged in `storage_` grown to that size; either
+way none of its three bound checks can fire for an answer within the `OracleOK` size bound -/
+theorem fast_path_storage_suffices {o : Oracle} (hO : OracleOK o) {op : Nat} {s : St} {io : Io} (hl : s.lastBytesBits ≤ 14)
+    (hin : io.availIn = io.input.length) (hsmall : io.availIn < 4611686018427387904) :
+    ¬ fastCap (fastS1 s io) io (fastInplace s io) < 2 ∧ ¬ fastBs s io > io.input.length
+    ∧ ¬ (s.lastBytesBits + (o s.nEnc (fastReq op s io)).bits.length) / 8 + 2 > fastCap (fastS1 s io) io (fastInplace s io) :=
+  fast_block_fits hO hl hin hsmall
+
+/-- **out_ok_after_call** (the fact `OutOk` that C13 assumes of states handed back by a stream call):
+after every `compress_stream` call the pending bytes lie inside the buffer `next_out_` points into —
+`storage_` or the 16-byte `tiny_buf_` — so `take_output` cannot slice out of range.  The invariants
+it rests on are re-established with it. -/
+theorem out_ok_after_call {o : Oracle} {B M fuel op cap : Nat} {input : Bytes} {s s' : St} {io' : Io} {r : Bool}
+    (hB : OracleBounded o B) (hM : (14 + 176 + B) / 8 ≤ M)
+    (hop : op ≤ 3) (hI : Inv s) (hw : s.inputPos + input.length < two64) (hl : s.lastBytesBits ≤ 14)
+    (hT : TinyOK s) (hS : StoreOK s)
+    (h : compressStream o fuel s op input cap = .ok (s', io', r)) :
+    PendingInBuffer s' ∧ TinyOK s' ∧ StoreOK s' ∧ s'.lastBytesBits ≤ 14 := by
+  have hT' := tinyOK_call hB hM hop hI hw hl hT h
+  have hS' := storeOK_call hop (Or.inr hI) hw hS h
+  exact ⟨pendingInBuffer_of hS' hT', hT', hS', compressStream_lbb hB hM hop hI hw hl h⟩
+
+/-- the same right after initialisation -/
+theorem out_ok_initial {s : St} (h : IsFresh s) :
+    PendingInBuffer (ensureInitialized s) ∧ TinyOK (ensureInitialized s) ∧ StoreOK (ensureInitialized s)
+    ∧ (ensureInitialized s).lastBytesBits ≤ 14 := by
+  have hT := tinyOK_fresh h
+  have hS : StoreOK (ensureInitialized s) := by
+    apply storeOK_notDyn
+    intro off ho
+    obtain ⟨p, rfl⟩ := h
+    simp [ensureInitialized, St.new] at ho
+  exact ⟨pendingInBuffer_of hS hT, hT, hS, ensureInitialized_lbb s (isFreshInit h)⟩
+
+/-! ### the ring buffer holds the input -/
+
+/-- **ring_buffer_faithful** (one write): `RingBufferWrite` — small first allocation, growth to the
+full size, tail-mirror write, body write (straight or wrapping into the tail and around), prefix
+mirror, position fold — keeps `RingOK`: for `input` = all bytes written so far,
+* every position `p` within the last `size_` bytes lives at `data_mo[2 + (p mod size_)]`;
+* every WRAPPED position (`p ≥ size_`) whose offset is below `tail_size_` is also in the tail
+  mirror, `data_mo[2 + size_ + (p mod size_)]` — what a reader running off the end of the ring sees;
+* `pos_` is the stream position up to one lap (`max(2^30, size_)`) and afterwards congruent to it
+  modulo the lap — hence modulo `size_` — and above the first lap: through every lap and across the
+  position fold, for every ring size incl. the 2^31-byte ring of lgwin 30 (this is where the fold
+  defect `ringbuffer-fold-lgwin30` showed: with the old fold the congruence fails for that ring).
+Writes of at most `tail_size_` bytes (one input block) — all `copy_input_to_ring_buffer` ever does. -/
+theorem ring_buffer_faithful_write {rb rb' : Ring} {input bytes : Bytes} {avail : Nat} (hR : RingOK rb input)
+    (hn : bytes.length ≤ rb.tailSize) (h : ringWrite rb bytes avail = .ok rb') : RingOK rb' (input ++ bytes) :=
+  ringWrite_ok hR hn h
+
+/-- what `RingOK` says, spelled out for readers of the ring (`data[i]` = `data_mo[2 + i]`, the slice
+the hashers and the literal emitter get) -/
+theorem ring_ok_reads {rb : Ring} {input : Bytes} (hR : RingOK rb input) :
+    (∀ p, p < input.length → input.length - p ≤ rb.size → rb.get (2 + p % rb.size) = input.getD p 0)
+    ∧ (∀ p, p < input.length → rb.size ≤ p → input.length - p ≤ rb.size → p % rb.size < rb.tailSize →
+        rb.get (2 + rb.size + p % rb.size) = input.getD p 0)
+    ∧ rb.pos % rb.size = input.length % rb.size
+    ∧ (input.length ≤ rb.lap → rb.pos = input.length) :=
+  ⟨hR.main, hR.mirror, hR.pos_mod, hR.posSmall⟩
+
+/-- **ring_buffer_faithful** (whole history): after ANY history on a fresh encoder — every interleaving
+of calls, operations, capacities — the ring buffer holds exactly the bytes the log says were copied
+into it (`logCopy log`, the chunks of its `copy` events in order; `input_pos_` is their number):
+`RingOK`, i.e. positions within the last `size_` bytes at their offset, wrapped positions mirrored in
+the tail, `pos_` congruent to `input_pos_`; and the tail is one input block. -/
+theorem ring_buffer_faithful {o : Oracle} {fuel : Nat} {calls : List Call} {s0 s : St} {t : Trace}
+    (hf : IsFresh s0) (hops : HistOK calls) (hw : histLen calls < two64)
+    (h : run o fuel calls s0 {} = .ok (s, t)) (hi : s.isInitialized = true) :
+    ∃ log : List Ev, log.filterMap Ev.req = t.reqs ∧ RingOK s.ring (logCopy log)
+      ∧ s.ring.tailSize = s.blockSize ∧ s.inputPos = (logCopy log).length := by
+  have hip : s0.inputPos = 0 := (isFresh_fields hf).2.2.1
+  obtain ⟨log, f⟩ := run_facts (o := o) (fuel := fuel) (t0 := {}) (runOK_fresh hf) hops (by rw [hip]; omega) h
+  have hr : t.reqs = logReqs log := by
+    have := f.reqs
+    simp only [List.nil_append] at this
+    exact this
+  have hring := f.ring [] (Or.inl ⟨hf, rfl⟩)
+  simp only [List.nil_append] at hring
+  rcases hring with ⟨hfr, _⟩ | hR
+  · rw [isFreshInit hfr] at hi; cases hi
+  · refine ⟨log, hr.symm, hR.ok, hR.tail, ?_⟩
+    have hpos := congrArg Pos.ip f.pos
+    rw [pos_fresh hf, logPos_ip] at hpos
+    have hlen : (logCopy log).length = logCopied log := by
+      clear hpos hR hr f h
+      induction log with
+      | nil => rfl
+      | cons e es ih => cases e <;> simp [logCopy, logCopied, ih]
+    rw [hlen]
+    have hpos' : s.inputPos = 0 + logCopied log := hpos
+    omega
+
+/-- the view a match finder has of the ring buffer (cf. `RingView` of Lemmas/MatchCmd.lean, which the
+hasher proofs assume): `data i` = `data_mo[2 + i]`, ring of `2^k` bytes, text `T`:
+positions `lo ≤ p < hi` live at their offset, and WRAPPED positions with a small offset are mirrored
+behind the ring.  (`RingView.mirror` asks `data[i] = data[i - 2^k]` for EVERY `i ≥ 2^k` below the
+allocation; the code does not maintain that — not for the 7 slack bytes, not for first-lap bytes that
+arrived through the small first allocation — but it maintains this, which is what a reader that runs
+off the end of the ring while staying inside the text needs.) -/
+structure RingViewW (data : Nat → Nat) (k tail : Nat) (T : Bytes) (lo hi : Nat) : Prop where
+  holds : ∀ p, lo ≤ p → p < hi → data (p % 2 ^ k) = T.getD p 0
+  mirror : ∀ p, lo ≤ p → p < hi → 2 ^ k ≤ p → p % 2 ^ k < tail → data (2 ^ k + p % 2 ^ k) = T.getD p 0
+
+/-- `RingOK` yields the match finder's view for the last `size_` bytes (so for a whole block and a
+window before it, the ring being at least window + block long) -/
+theorem ring_view_w {rb : Ring} {T : Bytes} {k : Nat} (hR : RingOK rb T) (hk : rb.size = 2 ^ k) :
+    RingViewW (fun i => rb.get (2 + i)) k rb.tailSize T (T.length - rb.size) T.length := by
+  refine ⟨?_, ?_⟩
+  · intro p hlo hhi
+    have := hR.main p hhi (by omega)
+    rw [hk] at this
+    exact this
+  · intro p hlo hhi hge hr
+    have := hR.mirror p hhi (by rw [hk]; exact hge) (by omega) (by rw [hk]; exact hr)
+    rw [hk] at this
+    simpa [Nat.add_assoc] using this
+
+/-- the 7 bytes behind the write position are zero while the first lap lasts (what an 8-byte hash
+load at the end of the input sees) -/
+theorem ring_slack_zero {s s' : St} {chunk input : Bytes} {avail : Nat} (hi : s.isInitialized = true)
+    (hR : RingOK s.ring input) (hn : chunk.length ≤ s.ring.tailSize)
+    (h : copyInputToRingBuffer s chunk avail = .ok s') :
+    RingOK s'.ring (input ++ chunk)
+    ∧ (s'.ring.pos ≤ s'.ring.mask → ∀ i, i < 7 → s'.ring.get (2 + s'.ring.pos + i) = 0) :=
+  copy_ring_ok hi hR hn h
 
 /-! ### composition -/
 
@@ -344,12 +506,17 @@ example : exampleRunOk (run exampleOracle 40 [.setParam 1 5, .stream 2 [1, 2, 3]
 example : HistOK [.setParam 1 5, .stream 2 [1, 2, 3] 100] := ⟨by omega, trivial⟩
 
 /-
-NOT proved here: the rest of `stream_no_panic` — the bounds on `storage_` (they need
-`OracleOK.fits` and the size arithmetic of `get_brotli_storage`) and the ring-buffer slice bounds
-(index arithmetic of `RingBufferWrite`).  The model has every one of those sites as an explicit
-`.panic` outcome, the correspondence run replays ~100k histories per quick run without reaching
-one, and the harness catches real panics (`catch_unwind`) — three were found that way and fixed
-in /repo (see /verif/proposed/*.md).
+STATUS of `stream_no_panic`.  Proved: `tiny_buf_` (TinyOK, `tiny_buf_never_overflows`), `storage_`
+(StoreOK, `storage_never_overflows` 1-3: every site that indexes `storage_`, given `OracleOK.fits`
+and positions below 2^62), the metadata-header staging.  NOT proved: the catable-prelude assertion of
+`encode_data` (`last_processed_pos_ < 2`: needs an invariant tying `is_first_mb` to the positions) and
+the slice bounds of `RingBufferWrite` (the CONTENT of the ring buffer is proved — `ring_buffer_faithful` —
+for writes that succeed; that no write panics is not).  The model has every
+one of those sites as an explicit `.panic` outcome, the correspondence run replays ~100k histories per
+quick run without reaching one, and the harness catches real panics (`catch_unwind`).
+The q0/q1 FRAGMENT writers (compress_fragment, compress_fragment_two_pass) are outside the model:
+they are the oracle of site 2 / of the quality 0/1 `encode_data`, judged by the two decoders only
+(input classes `fragment` of the c01 stage).
 -/
 
 end BV.Props.C01
